@@ -490,6 +490,11 @@ class Resolver:
                     m = self.p.find_method(fi.cls, n.attr)
                     if m is not None and any(isinstance(d, ast.Name) and d.id in ("property", "cached_property") or (isinstance(d, ast.Attribute) and d.attr in ("cached_property",)) for d in m.node.decorator_list):
                         outs.append((m, n))
+                elif isinstance(n, ast.Attribute) and isinstance(n.ctx, ast.Store) and isinstance(n.value, ast.Name) and n.value.id == "self" and fi.cls is not None:
+                    # assigning to a property runs its setter
+                    st_ = getattr(fi.cls, "setters", {}).get(n.attr)
+                    if st_ is not None and st_ is not fi:
+                        outs.append((st_, n))
             cg[fi.key] = outs
             unresolved[fi.key] = unr
         self._cg = cg
